@@ -15,7 +15,7 @@ def get_jobs(arch="simple", M=12, KN=8, metrics=("ENERGY", "LATENCY"), glb_size=
     from accelforge.util.parallel import set_n_parallel_jobs
     import accelforge.mapper.FFM._make_pmappings.make_pmappings as pm
     set_n_parallel_jobs(1)
-    arch_p = af.examples.arches.simple if arch == "simple" else os.path.join(DATA, "a3.yaml")
+    arch_p = af.examples.arches.simple if arch == "simple" else os.path.join(DATA, arch + ".yaml")
     spec = Spec.from_yaml(arch_p, af.examples.workloads.basic.matmuls,
                           jinja_parse_data={"N_EINSUMS": n_einsums, "M": M, "KN": KN, "GlobalBufferSize": glb_size, "GlobalBufferThroughput": glb_throughput})
     for node in spec.arch.nodes:
